@@ -203,3 +203,24 @@ def default_helpers(chk, ctx, rule, modules) -> None:
             got = mi.imports.get(name)
             chk.ob(rule, f'{mod}:{name}', got == f'pokerkit.utilities.{name}', f'pokerkit/{mod}.py',
                    f'the default `{name}` of this module is pokerkit.utilities.{name} (not the builtin, not another function)', got=got)
+
+
+def chip_literals(chk, ctx, rule) -> None:
+    """chips may be int, Fraction, Decimal or float: every number the engine and its default helpers combine with an amount is an
+    integer literal (exact under all of them) - one float literal or float() conversion makes Decimal and Fraction chips fail or drift"""
+    import ast
+    n = 0
+    bad = []
+    for mod in ('state', 'utilities', 'games'):
+        mi = ctx.prog.module(mod)
+        for node in ast.walk(mi.tree):
+            if isinstance(node, ast.Constant) and isinstance(node.value, (int, float)) and not isinstance(node.value, bool):
+                n += 1
+                if isinstance(node.value, float):
+                    bad.append((mod, node))
+            elif isinstance(node, ast.Call) and isinstance(node.func, ast.Name) and node.func.id == 'float' and mod == 'state':
+                bad.append((mod, node))
+    chk.analysed['numeric_literals_examined'] = n
+    chk.ob(rule, 'pokerkit:float_literals', not bad and n > 50, f'pokerkit/{bad[0][0]}.py:{bad[0][1].lineno}' if bad else 'pokerkit/',
+           'the engine, the default division / rake and the variant definitions use integer literals only (exact for every chip type)',
+           got=[f'{m}.py:{x.lineno}: {ast.unparse(x)}' for m, x in bad[:3]] or f'{n} literals')
